@@ -59,6 +59,17 @@ def ad_case(draw, tier, shard=0, nshards=1, zero_chol=False):
     if c["wt"] == "rhf" or draw(st.booleans()):
         o = np.stack([o[0], o[0]])
     p.update({"entry": c["entry"], "n_prop_steps": c["steps"], "n_ene_blocks": c["ene"], "n_sr_blocks": c["sr"], "obs": o, "perturb": draw(st.sampled_from([0.05, 0.15]))})
+    p["small_gap"] = False
+    if c["entry"] in ("ad", "ad_nosr") and draw(st.integers(0, 2)) == 0:
+        # nearly degenerate HOMO-LUMO pair (gap 2e-3 .. 5e-4, still far above the 1e-5 degeneracy threshold of the eigen-derivative):
+        # the orbital response is large and must still be the true derivative
+        nocc = c["shape"][1][0]
+        e, v = np.linalg.eigh(np.asarray(p["h1"]))
+        e = np.arange(norb) * 1.0
+        e[nocc] = e[nocc - 1] + draw(st.sampled_from([2e-3, 1e-3, 5e-4]))
+        p["h1"] = v @ np.diag(e) @ v.T
+        p["chol"] = np.asarray(p["chol"]) * 0.02
+        p["small_gap"] = True
     if zero_chol:
         p["chol"] = np.zeros_like(np.asarray(p["chol"]))
     return p
@@ -72,9 +83,9 @@ def _commutes(a, b):
     return float(np.max(np.abs(a @ b - b @ a))) < 1e-9
 
 
-def _prep(ctx, case):
+def _prep(ctx, case, need_converged=True):
     P = sl.Problem(case)
-    if not P.converged:
+    if need_converged and not P.converged:
         ctx.count("rejected:scf-not-converged")
         hypothesis.assume(False)
     hd = P.ham_data()
@@ -83,18 +94,19 @@ def _prep(ctx, case):
 
 
 def fd_body(ctx, case):
-    P, hd, pd = _prep(ctx, case)
+    # f(lambda) contains a fixed number of SCF iterations and is a deterministic function whether or not they converged
+    P, hd, pd = _prep(ctx, case, need_converged=not case.get("small_gap"))
     obs = jnp.asarray(np.asarray(case["obs"], float))
     smp = _smp(case)
     f = sl.entry_point(case["entry"], smp, P, hd)
     tag = f"{case['entry']}:{case['walker_type']}"
     nontriv = bool(np.any(np.asarray(case["chol"]))) and not _commutes(np.asarray(case["obs"])[0], P.h1)
-    ctx.case(case, nontrivial=nontriv, classes=["fd:" + tag, f"blocks={case['n_sr_blocks']}x{case['n_ene_blocks']}x{case['n_prop_steps']}"])
+    ctx.case(case, nontrivial=nontriv, classes=["fd:" + tag, f"blocks={case['n_sr_blocks']}x{case['n_ene_blocks']}x{case['n_prop_steps']}"] + (["fd:small-homo-lumo-gap"] if case.get("small_gap") else []))
     try:
         e0, de, _ = jvp(f, (0.0, obs, sl.copy_pd(pd)), (1.0, 0.0 * obs, sl.tangent_like(pd)), has_aux=True)
         e0, de = float(e0), float(de)
         ds = []
-        for h in (1e-3, 3e-4, 1e-4):
+        for h in ((1e-3, 3e-4, 1e-4) if not case.get("small_gap") else (1e-5, 3e-6, 1e-6)):
             ep = float(f(h, obs, sl.copy_pd(pd))[0])
             em = float(f(-h, obs, sl.copy_pd(pd))[0])
             ds.append((ep - em) / (2 * h))
@@ -105,10 +117,17 @@ def fd_body(ctx, case):
         ctx.fail(f"fd:jvp-not-finite:{tag}", case, f"jvp derivative {de!r}")
         return
     scale = max(abs(de), 0.01 * (1.0 + abs(e0)))
-    if max(abs(ds[0] - ds[1]), abs(ds[1] - ds[2]), abs(ds[0] - ds[2])) > 1e-5 * scale:
+    spread = max(abs(ds[0] - ds[1]), abs(ds[1] - ds[2]), abs(ds[0] - ds[2]))
+    gap = abs(de - ds[2])
+    ctx.err(f"|jvp - central difference| / scale [{tag}]", gap / scale if spread <= 1e-5 * scale else 0.0)
+    if gap <= 1e-5 * scale + spread:
+        return
+    # the derivative disagrees with the finite differences: decisive only if the finite differences agree among themselves much better
+    # than they disagree with the jvp (otherwise a clipping / comb / cap branch or a strong non-linearity lies between the points)
+    if spread > 0.1 * gap:
         ctx.inconclusive("finite-differences-disagree-among-themselves")
         return
-    ctx.check_close(f"fd:jvp-vs-central-difference:{tag}", case, f"jvp - central difference [{tag}]", de, ds[1], 1e-5, scale)
+    ctx.fail(f"fd:jvp-vs-central-difference:{tag}" + (":small-gap" if case.get("small_gap") else ""), case, f"jvp {de!r} vs central differences {ds} (spread {spread:.2e}, scale {scale:.2e})")
 
 
 def vjp_body(ctx, case):
